@@ -51,6 +51,8 @@ let () =
     (try
       toks := Array.of_list (List.filter (fun s -> s <> "") (split_line line));
       pos := 0;
+      let textpid = (!toks).(0) = "tp" in
+      if textpid then pos := 1;
       let version = next_n () in
       let use_strtbl = next_int () <> 0 in
       let keep_ws = next_int () <> 0 in
@@ -63,7 +65,7 @@ let () =
        | None -> print_endline "bad unknown-language"
        | Some l ->
          let o = { o_version = version; o_use_strtbl = use_strtbl; o_keep_ws = keep_ws; o_anonymous = anon } in
-         (match enc_wbxml main_btable l o roots with
+         (match (if textpid then enc_wbxml_textpid else enc_wbxml) main_btable l o roots with
           | EOk b -> Printf.printf "W OK %s\n" (hex_of_bytes b)
           | EErr c -> Printf.printf "W ERR %d\n" (int_of_n c)))
     with Bad why -> Printf.printf "bad %s\n" why
